@@ -35,6 +35,102 @@ pub fn minimise(cluster: &ClusterCfg, trace: &[Action], v: &Violation, budget_s:
             }
         }
     };
+    // ---- coarse passes first: whole action kinds, whole nodes
+    fn kind_of(a: &Action) -> u8 {
+        match a {
+            Action::Tick { .. } => 1,
+            Action::Deliver { .. } => 2,
+            Action::Drop { .. } => 3,
+            Action::Dup { .. } => 4,
+            Action::AppReady { .. } => 5,
+            Action::Fsync { .. } => 6,
+            Action::Notify { .. } => 7,
+            Action::Apply { .. } => 8,
+            Action::Propose { .. } => 9,
+            Action::ProposeBatch { .. } => 10,
+            Action::ProposeConf { .. } => 11,
+            Action::ReadIndex { .. } => 12,
+            Action::Transfer { .. } => 13,
+            Action::Campaign { .. } => 14,
+            Action::RequestSnapshot { .. } => 15,
+            Action::Ping { .. } => 16,
+            Action::ReportUnreachable { .. } => 17,
+            Action::ReportSnapshot { .. } => 18,
+            Action::Compact { .. } => 19,
+            Action::SetKnob { .. } => 20,
+            Action::StorageFault { .. } => 21,
+            Action::EntriesFetched { .. } => 22,
+            Action::Crash { .. } => 23,
+            Action::Restart { .. } => 24,
+            Action::StartNode { .. } => 25,
+            Action::Decommission { .. } => 26,
+            Action::Bogus { .. } => 27,
+            Action::Stabilise { .. } => 28,
+            Action::Lockstep { .. } => 29,
+        }
+    }
+    fn node_of(a: &Action) -> Option<u64> {
+        Some(match a {
+            Action::Tick { n }
+            | Action::AppReady { n, .. }
+            | Action::Fsync { n, .. }
+            | Action::Notify { n }
+            | Action::Apply { n, .. }
+            | Action::Propose { n, .. }
+            | Action::ProposeBatch { n, .. }
+            | Action::ProposeConf { n, .. }
+            | Action::ReadIndex { n, .. }
+            | Action::Transfer { n, .. }
+            | Action::Campaign { n }
+            | Action::RequestSnapshot { n }
+            | Action::Ping { n }
+            | Action::ReportUnreachable { n, .. }
+            | Action::ReportSnapshot { n, .. }
+            | Action::Compact { n, .. }
+            | Action::SetKnob { n, .. }
+            | Action::StorageFault { n, .. }
+            | Action::EntriesFetched { n }
+            | Action::Crash { n, .. }
+            | Action::Restart { n }
+            | Action::StartNode { n }
+            | Action::Decommission { n }
+            | Action::Bogus { n, .. } => *n,
+            Action::Deliver { k } | Action::Drop { k } | Action::Dup { k } => k.t,
+            _ => return None,
+        })
+    }
+    for kind in [20u8, 27, 16, 17, 19, 12, 13, 21, 22, 4, 3, 15, 18, 9, 10, 11, 14, 8, 7] {
+        if t0.elapsed().as_secs() >= budget_s {
+            break;
+        }
+        if !cur.iter().any(|a| kind_of(a) == kind) {
+            continue;
+        }
+        let cand: Vec<Action> = cur.iter().filter(|a| kind_of(a) != kind).cloned().collect();
+        if let Some(nv) = test(cluster, &cand, v, focus) {
+            let mut cand = cand;
+            cand.truncate((nv.step as usize).min(cand.len()));
+            cur = cand;
+            cur_v = nv;
+        }
+    }
+    let node_ids: Vec<u64> = cluster.nodes.keys().cloned().collect();
+    for nid in node_ids {
+        if t0.elapsed().as_secs() >= budget_s {
+            break;
+        }
+        // everything that happens *on* this node (it stays silent: like a node that is down throughout)
+        let cand: Vec<Action> = cur.iter().filter(|a| node_of(a) != Some(nid)).cloned().collect();
+        if cand.len() == cur.len() {
+            continue;
+        }
+        if let Some(nv) = test(cluster, &cand, v, focus) {
+            let mut cand = cand;
+            cand.truncate((nv.step as usize).min(cand.len()));
+            cur = cand;
+            cur_v = nv;
+        }
+    }
     let mut n = 2usize;
     while cur.len() >= 2 && t0.elapsed().as_secs() < budget_s {
         let chunk = (cur.len() + n - 1) / n;
@@ -66,6 +162,26 @@ pub fn minimise(cluster: &ClusterCfg, trace: &[Action], v: &Violation, budget_s:
                 break;
             }
             n = (n * 2).min(cur.len());
+        }
+    }
+    // ---- greedy single-action removal, from the end backwards, until a fixpoint or the budget is used up
+    let mut changed = true;
+    while changed && t0.elapsed().as_secs() < budget_s {
+        changed = false;
+        let mut i = cur.len();
+        while i > 0 && t0.elapsed().as_secs() < budget_s {
+            i -= 1;
+            if i >= cur.len() {
+                continue;
+            }
+            let mut cand = cur.clone();
+            cand.remove(i);
+            if let Some(nv) = test(cluster, &cand, v, focus) {
+                cand.truncate((nv.step as usize).min(cand.len()));
+                cur = cand;
+                cur_v = nv;
+                changed = true;
+            }
         }
     }
     // argument shrinking: payload sizes, counts
